@@ -270,7 +270,9 @@ def write_steps(rng, prog, lane, d, n, algo, key=None, how="oneshot", chunks=Non
             w["vectored"] = rng.choice([1, 2, 3])       # Write::write_vectored instead of write
         elif hi - lo > 0 and rng.random() < 0.15:
             # io::copy into the writer from a source that trickles (socket-like short reads)
-            w["copy_step"] = rng.choice([1, 100, 1000, 5000, 8192, 9000])
+            # (at most a few thousand reads: a one-byte trickle of megabytes through the async
+            # runtimes takes long enough to trip the watchdog, which would be a false alarm)
+            w["copy_step"] = max(rng.choice([1, 100, 1000, 5000, 8192, 9000]), (hi - lo) // 2000 + 1)
         st.append(w)
         if flushy and rng.random() < 0.5:
             st.append({"op": "w_flush", "lane": lane, "h": alias})
